@@ -47,7 +47,7 @@ def required_cells(tier):
             "class:E", "class:R", "resolved-set-compared", "table-compared", "header-dir-outside-root",
             "outside-header-read", "include-depth>=40", "include-depth>=70", "headers-differing-in-case",
             "guard-undefined-then-reincluded", "directory-named-like-header-on-search-path", "include-spelled-with-dotdot",
-            "dotdot-include-resolved-through-search-directory", "include-spelled-with-dotdot-after-directory-link", "directory-named-by-I-and-isystem", "directory-named-twice-by-I", "environment:CPATH-names-header-directories",
+            "dotdot-include-resolved-through-search-directory", "include-spelled-with-dotdot-after-directory-link", "directory-named-by-I-and-isystem", "quote-include-inside-header-opened-through-file-link", "directory-named-twice-by-I", "environment:CPATH-names-header-directories",
             "headers-with-unknown-or-no-extension", "header-names-outside-ascii"]
 
 
@@ -245,6 +245,8 @@ def check_case(ctx, case, base, cls, extra_cells=()):
         cells.add("header-names-outside-ascii")
     if ev is not None:
         for e in ev.events:
+            if e[0] == "inc" and e[2].startswith("lk_side") and e[5]:
+                cells.add("quote-include-inside-header-opened-through-file-link")
             if e[0] == "inc" and e[2].startswith("up_inc/../") and e[5]:
                 cells.add("include-spelled-with-dotdot-after-directory-link")
             if e[0] == "inc" and e[2].startswith("../") and e[5]:
@@ -343,7 +345,7 @@ def run_shard(ctx):
         # one case in 16: an include chain 20..100 levels deep (gcc allows 200; the code's recursion meets the interpreter's limit near 120)
         case = forest.gen(rng, outside=rng.random() < 0.4, deep=[20, 40, 70, 100][(i // 16) % 4] if i % 16 == 5 else 0,
                           casepair=(i % 8 == 3), reguard=(i % 8 == 6), dirdecoy=(i % 4 == 1), updir=(i % 4 == 2),
-                          findable=(i % 4 != 0), oddnames=(i % 8 == 7), dirlinks=(i % 8 == 4), dupdirs=(i % 8 in (0, 5)))      # (3 in 4: every header name is on every command's path; else ~60% are rejected by gcc)
+                          findable=(i % 4 != 0), oddnames=(i % 8 == 7), dirlinks=(i % 8 == 4), dupdirs=(i % 8 in (0, 5)), links=("side" if i % 8 == 2 else False))      # (3 in 4: every header name is on every command's path; else ~60% are rejected by gcc)
         if ctx.mine(i):
             check_case(ctx, case, base, "R")
     shutil.rmtree(base, ignore_errors=True)
